@@ -186,6 +186,28 @@ example :
          | .panic => ([], []))
       | .panic => ([], [])) = ([1, 2], [1, 2]) := by decide
 
+/-- **C02_forged_gap_no_duplicate**: in EVERY reachable state a GAP of ANY content (any start / base / set, also one the
+    writer never sent) followed by a copy of the DATA of any delivered sample leaves the delivered list as it was. -/
+theorem C02_forged_gap_no_duplicate (cfg : Cfg) (hfix : cfg.fixD43 = true) (rel tl : Bool) (f : Nat) (hf : 1 ≤ f) (hf16 : f < 65536)
+    (steps : List Step) (hsteps : ∀ st, st ∈ steps → StepOK st) (s : Sys)
+    (hrun : Sys.run cfg (Sys.init rel tl f) steps = .ok s) (start base : Nat) (set : List Nat) :
+    (s.r.onGap cfg start base set).cache = s.r.cache ∧
+    ∀ c, c ∈ s.r.cache → ∀ payload,
+      ((s.r.onGap cfg start base set).onData c.sn payload).cache = (s.r.onGap cfg start base set).cache := by
+  have hinv := inv1_run cfg hfix steps _ s hsteps (inv1_init rel tl f hf hf16) hrun
+  cases hp : s.r.proxy with
+  | none =>
+    have hc : s.r.cache = [] := hinv.reader.noProxy hp
+    have hg : s.r.onGap cfg start base set = s.r := by unfold Reader.onGap; rw [hp]
+    rw [hg]
+    exact ⟨rfl, by intro c hcm; rw [hc] at hcm; cases hcm⟩
+  | some p =>
+    obtain ⟨hcache, p', hp', hhr, _⟩ := C02_gap_never_rewinds cfg s.r start base set p hp
+    refine ⟨hcache, ?_⟩
+    intro c hc payload
+    have := hinv.reader.bound p hp c hc
+    exact onData_refused_of_le_highest _ p' hp' c.sn payload (by omega)
+
 /-- as-is (D43): a re-announcement of the match replaces both proxies by fresh ones — the writer sends its history
     again and the reader accepts it again: sample 1 is delivered twice with no fault at all -/
 theorem C02_rematch_duplicates_asis_counterexample :
